@@ -365,7 +365,12 @@ func (e *renv) run(ss []rstmt) rsignal {
 			sig = e.rloop(s)
 		}
 		switch sig.kind {
-		case "break", "continue":
+		case "break":
+			return sig
+		case "continue":
+			if lazy.kind != "" {
+				return lazy // a lazybreak requested earlier in this iteration survives a continue
+			}
 			return sig
 		case "lazybreak":
 			if s.kind == "lazybreak" || lazy.kind == "" || sig.depth > lazy.depth {
